@@ -935,6 +935,82 @@ fn run_fuzzers(check: &Check, runs_per_worker: u64) -> Vec<RawCase> {
     found
 }
 
+#[derive(Clone, Debug, Serialize, Deserialize)]
+pub struct DeepCase {
+    pub entry: String,
+    pub depth: u32,
+}
+
+fn deep_cases() -> Vec<DeepCase> {
+    let mut v = vec![];
+    for entry in ["mk:MKMapProof", "key:MkMapProof"] {
+        for depth in [10u32, 33, 1000, 20_000, 200_000] {
+            v.push(DeepCase { entry: entry.to_string(), depth });
+        }
+    }
+    v
+}
+
+/// an MKMapProof<BlockRange> with one sub-proof per level: (empty master proof = 4 zero varints) (1 sub-proof) (key = two
+/// zero varints), repeated; the innermost level is cut, which a decoder reports as an error - unless it dies before
+fn deep_bytes(depth: u32) -> Vec<u8> {
+    let mut b = Vec::with_capacity(depth as usize * 7);
+    for _ in 0..depth {
+        b.extend_from_slice(&[0, 0, 0, 0, 1, 0, 0]);
+    }
+    b
+}
+
+fn deep_case_fn(c: &DeepCase) -> Report {
+    let mut rep = Report::new();
+    let Some(entry) = table().iter().find(|e| e.name == c.entry) else {
+        rep.discard("unknown entry");
+        return rep;
+    };
+    let kind_name = match entry.kind {
+        Kind::Bytes => "Bytes",
+        Kind::Str => "Str",
+        Kind::Json => "Json",
+    };
+    let t: Vec<&Entry> = table().iter().filter(|e| e.kind == entry.kind).collect();
+    let idx = t.iter().position(|e| e.name == c.entry).unwrap_or(0) as u8;
+    let payload = match entry.kind {
+        Kind::Bytes => deep_bytes(c.depth),
+        _ => hex::encode(deep_bytes(c.depth)).into_bytes(),
+    };
+    let mut data = vec![idx];
+    data.extend_from_slice(&payload);
+    let f = std::env::temp_dir().join(format!("deep-{}-{}-{}.bin", std::process::id(), c.entry.replace(':', "_"), c.depth));
+    if std::fs::write(&f, &data).is_err() {
+        rep.discard("scratch file not writable");
+        return rep;
+    }
+    let out = std::process::Command::new(std::env::current_exe().expect("exe")).args(["C05-raw", kind_name, f.to_str().unwrap_or("")]).output();
+    let _ = std::fs::remove_file(&f);
+    rep.label(format!("deep:{}:{}", c.entry, c.depth));
+    rep.nontrivial(format!("deep|{}|{}", c.entry, c.depth));
+    match out {
+        Ok(o) if o.status.code() == Some(0) => {
+            rep.label("deep:handled");
+        }
+        Ok(o) if o.status.code() == Some(1) => {
+            let txt = String::from_utf8_lossy(&o.stdout);
+            rep.violation(format!("deep-nesting:{}", c.entry), format!("{} nested {} levels deep: {}", c.entry, c.depth, txt.lines().last().unwrap_or("").chars().take(300).collect::<String>()));
+        }
+        Ok(o) => {
+            let err = String::from_utf8_lossy(&o.stderr);
+            rep.violation(
+                format!("process-abort:deep-nesting:{}", c.entry),
+                format!("decoding {} nested {} levels deep ({} bytes) kills the process ({:?}): {}", c.entry, c.depth, data.len(), o.status, err.lines().last().unwrap_or("").chars().take(200).collect::<String>()),
+            );
+        }
+        Err(e) => {
+            rep.discard(format!("cannot start the probe process: {e}"));
+        }
+    }
+    rep
+}
+
 pub fn run(args: &Args) -> i32 {
     let mut check = Check::new("C05", "exploration", args);
     check
@@ -1001,6 +1077,13 @@ pub fn run(args: &Args) -> i32 {
         }
     }
     check.enumerate("fuzz-regressions", raws.into_iter(), false, raw_case_fn);
+    // recursion depth: the one recursive wire type (MKMapProof: sub-proofs of sub-proofs) nested 10 .. 200 000 levels
+    // deep, in its bincode form and inside a key string. A stack overflow aborts the process, so every probe runs in a
+    // fresh process (`p-stm C05-raw`); serde_json and CBOR decoders carry their own recursion limits and are covered
+    // by the in-process "deep nesting" mutations.
+    if !check.is_replay() {
+        check.enumerate("deep-nesting-subprocess", deep_cases().into_iter(), false, deep_case_fn);
+    }
     if t == vcore::Tier::Thorough && !check.is_replay() {
         let found = run_fuzzers(&check, t.pick(0, 2_000_000) as u64);
         // every artifact is re-evaluated in a fresh process first (it may abort), then in-process for the replay file
